@@ -83,6 +83,23 @@ def observe (s : DState) (fsid : Nat) (p : Str) : String × DState :=
   let rdS := match rd with | .ok b => encContent b | .err _ _ => "-" | .panic => "P"
   (s!"{encStr p}={exS}|{mdS}|{lsS}|{rdS}", s)
 
+/-- deep observation with timestamps except the access time -/
+def observeT (s : DState) (fsid : Nat) (p : Str) : String × DState :=
+  let (md, s) := onPath s fsid p VPath.metadata
+  let (rd, s) := onPath s fsid p (fun q => do
+      let h ← q.openFile
+      M.ret h.readToEnd.1)
+  let mdS := match md with
+    | .ok m => s!"{encType m.ftype} {m.len} c={encTS m.created} m={encTS m.modified}"
+    | .err _ _ => "-" | .panic => "P"
+  let rdS := match rd with | .ok b => encContent b | .err _ _ => "-" | .panic => "P"
+  (s!"{encStr p}={mdS}|{rdS}", s)
+
+def snapshotT (s : DState) (fsid : Nat) (paths : List Str) : String × DState :=
+  paths.foldl (fun (acc : String × DState) p =>
+    let (o, s') := observeT acc.2 fsid p
+    (if acc.1.isEmpty then o else acc.1 ++ " " ++ o, s')) ("", s)
+
 def snapshot (s : DState) (fsid : Nat) (paths : List Str) : String × DState :=
   paths.foldl (fun (acc : String × DState) p =>
     let (o, s') := observe acc.2 fsid p
@@ -169,6 +186,10 @@ def stepWorld (s : DState) (toks : List String) : Option (String × DState) :=
   | ["log"] =>
     some (" ".intercalate (s.world.log.map fun e =>
       s!"{e.tag}:{reprStr e.method}:{encStr e.path}"), s)
+  | "snapt" :: fsid :: paths => do
+    let fsid ← parseNat fsid
+    let ps ← paths.mapM decStr
+    pure (snapshotT s fsid ps)
   | "snap" :: fsid :: paths => do
     let fsid ← parseNat fsid
     let ps ← paths.mapM decStr
